@@ -4,6 +4,7 @@ package server
 
 import (
 	"context"
+	"io"
 	"net"
 	"time"
 
@@ -39,13 +40,15 @@ import (
 // capacity poolCount+10; no login field value can make the constructor panic.
 //
 //verif:contract ~/server.NewControl
-//verif:props C11 C16
+//verif:props C11 C16 C05
 func verif_NewControl(ctx context.Context, rc *controller.ResourceController, pxyManager *proxy.Manager,
 	pluginManager *plugin.Manager, authVerifier auth.Verifier, ctlConn net.Conn, ctlConnEncrypted bool,
 	loginMsg *msg.Login, serverCfg *v1.ServerConfig,
 ) {
 	want := loginMsg.PoolCount
 	maxc := int(serverCfg.Transport.MaxPoolCount)
+	token := serverCfg.Auth.Token
+	verif.ResetEvents()
 	ctl, err := NewControl(ctx, rc, pxyManager, pluginManager, authVerifier, ctlConn, ctlConnEncrypted, loginMsg, serverCfg)
 	if err == nil {
 		verif.Ensures(ctl != nil, "nonnil")
@@ -55,6 +58,18 @@ func verif_NewControl(ctx context.Context, rc *controller.ResourceController, px
 		verif.Ensures(verif.ChanCap(ctl.workConnCh) == ctl.poolCount+10, "pool_capacity_bounded")
 		verif.Ensures(!verif.Closed(ctl.workConnCh) && !verif.Closed(ctl.doneCh), "channels_open")
 		verif.Ensures(ctl.authVerifier == authVerifier && ctl.loginMsg == loginMsg && ctl.runID == loginMsg.RunID, "wired")
+		// C05 "no control-message content appears in clear": unless the caller says
+		// the connection needs no encryption (internal connections), control
+		// messages travel through the token-keyed cipher stream around this
+		// connection and through nothing else
+		const evCrypto, evDisp = "net.NewCryptoReadWriter", "msg.NewDispatcher"
+		verif.Ensures(verif.Called(evCrypto) == ctlConnEncrypted && verif.CallCount(evDisp) == 1, "cipher_stream_iff_requested")
+		if ctlConnEncrypted {
+			verif.Ensures(verif.Same(verif.NthArg[any](evCrypto, 0, 0), any(ctlConn)) && verif.CalledWith(evCrypto, 1, []byte(token)), "cipher_keyed_by_the_token_around_this_connection")
+			verif.Ensures(verif.Same(verif.NthArg[any](evDisp, 0, 0), any(verif.Ret[io.ReadWriter](evCrypto, 0))), "dispatcher_speaks_through_the_cipher_stream")
+		} else {
+			verif.Ensures(verif.Same(verif.NthArg[any](evDisp, 0, 0), any(ctlConn)), "dispatcher_speaks_on_this_connection")
+		}
 	}
 }
 
@@ -151,7 +166,7 @@ func verif_ControlManager_GetByID(cm *ControlManager, runID string) {
 // completely ended.
 //
 //verif:contract (*~/server.Service).RegisterControl
-//verif:props C04 C12
+//verif:props C04 C12 C05
 func verif_RegisterControl(svr *Service, ctlConn net.Conn, loginMsg *msg.Login, internal bool) {
 	want := svr.authVerifier
 	if internal && loginMsg.ClientSpec.AlwaysAuthPass {
@@ -163,6 +178,8 @@ func verif_RegisterControl(svr *Service, ctlConn net.Conn, loginMsg *msg.Login, 
 	verif.Ensures(svr.authVerifier == av0, "configured_verifier_untouched")
 	if verif.Called("server.NewControl") {
 		verif.Ensures(verif.CalledWith("server.NewControl", 4, want), "session_uses_verifier_in_force")
+		// C05: every connection that did not come from inside the process gets the cipher stream
+		verif.Ensures(verif.CalledWith("server.NewControl", 6, !internal) && verif.Same(verif.NthArg[any]("server.NewControl", 0, 5), any(ctlConn)), "external_sessions_are_encrypted")
 	}
 	if err != nil {
 		verif.Ensures(!verif.Called("ControlManager).Add"), "refused_login_not_in_table")
